@@ -199,7 +199,33 @@ var lockEntries = []lockEntry{
 	{"(*pogreb.DB).Items", ""},
 	{"(*pogreb.DB).Metrics", ""},
 	{"(*pogreb.ItemIterator).Next", ""},
-	{"(*pogreb.DB).startBackgroundWorker$1", ""},
+	{"@goroutines", ""}, // the body of every goroutine started by package pogreb
+}
+
+// resolveLockEntries expands the table for a loaded program ("@goroutines" -> functions started by go statements).
+func resolveLockEntries(p *Program) []lockEntry {
+	var out []lockEntry
+	for _, e := range lockEntries {
+		if e.Key != "@goroutines" {
+			out = append(out, e)
+			continue
+		}
+		for _, f := range p.ModuleFuncs("") {
+			if f.Pkg != p.MainS {
+				continue
+			}
+			instrsOf(f, func(in ssa.Instruction) {
+				if g, ok := in.(*ssa.Go); ok {
+					if body, _, _ := resolveFuncValue(nil, g.Call.Value, 0); body != nil {
+						out = append(out, lockEntry{funcKey(body), ""})
+					} else if sc := g.Call.StaticCallee(); sc != nil {
+						out = append(out, lockEntry{funcKey(sc), ""})
+					}
+				}
+			})
+		}
+	}
+	return out
 }
 
 // guardedFields: shared state protected by DB.mu (confirmed by reading, DESIGN.md 2.2).
